@@ -19,7 +19,10 @@ below, harness keys `c03:…`.
 
 Soundness half.  The full statement is given against an abstract evaluator (`check_sound_goal`); against
 the reference evaluator `Spec.eval` it is proved for the scalar fragment (`check_sound_partial`,
-`as_kind_exact_partial`; helper file `Proofs/SoundFrag.lean`), together with what can be said at the level
+`as_kind_exact_partial`; helper file `Proofs/SoundFrag.lean`), for the collection fragment
+(`check_sound_collections_partial`, `as_kind_exact_collections_partial`; `Proofs/SoundColl.lean`,
+`SoundCall.lean`, `SoundAsm.lean`) and, behind a hypothesis on the environment's functions, with calls
+(`check_sound_calls_partial`, `as_kind_exact_calls_partial`), together with what can be said at the level
 of types for all expressions (`as_kind_exact`, `accepted_type_is_synth`).
 -/
 namespace ExprModel.C03
@@ -449,13 +452,16 @@ theorem as_kind_exact_partial (cfg : CheckCfg) (c : Spec.SCfg) (henv : EnvConfor
 /-! ### soundness proved: the extended fragment (collections), against `Spec.eval`
 
 `inFrag2` adds to the scalar fragment: the closure variable `#`, `in` / `not in` on a slice, the range
-`..`, indexing a slice by an integer, `len`, and the predicate builtins `all none any one count` with a
-closure.  `typed2` is "every operand has a static type the construct's rule is sound for": scalar operands
-for the scalar operators and the predicate's body, a slice of scalars (`[]int`, `[]string`, …) where a
-collection is expected, an integer (not `interface{}`) index.  This excludes, explicitly, the constructs
-behind the known findings: the loose index rule (index typed `interface{}`), `filter`/`map` (static slice
-type differs from the run-time `[]interface{}`), arithmetic on `interface{}` operands, calls (retyped
-arguments).  `EnvConforms2`: the environment holds, under every name the checker types as a scalar or a
+`..`, `**`, indexing and slicing a slice by integers, `len`, array literals (a `[]interface{}` of which only
+the shape is claimed: usable under `in` and `len`), the conditional with branches of one value type, the
+predicate builtins `all none any one count` with a closure, and (`inFrag2 true`) calls of environment
+functions.  `typed2` is "every operand has a static type the construct's rule is sound for": scalar
+operands for the scalar operators and the predicate's body, a slice of scalars (`[]int`, `[]string`, …)
+where a collection is expected, an integer (not `interface{}`) index.  This excludes, explicitly, the constructs
+behind the known findings: the loose index rule (index typed `interface{}`), `filter`/`map` with the static
+slice type `[]T` (it differs from the run-time `[]interface{}`: they are in the fragment exactly when
+`cfg.dt.staticSliceOf = false`, the documented rule, and then yield a `[]interface{}`), arithmetic on
+`interface{}` operands, calls with retyped non-literal arguments.  `EnvConforms2`: the environment holds, under every name the checker types as a scalar or a
 slice of scalars, a value of that type (for a slice: the element tag and every element).  The tolerated
 failures are the value-dependent ones, `ValueDep`: division by zero, index out of range, memory budget. -/
 
@@ -464,7 +470,7 @@ scalars), evaluating the annotated tree with the reference evaluator yields a va
 slice: with the static element tag and all elements of the element type — or fails with a
 value-dependent error; never with a type error. -/
 theorem check_sound_collections_partial (cfg : CheckCfg) (c : Spec.SCfg) (henv : EnvConforms2 cfg c.env)
-    (n n' : Node) (τ : OTy) (V : VTy) (hfrag : inFrag2 n = true) (hstatic : typed2 cfg [] n = true)
+    (n n' : Node) (τ : OTy) (V : VTy) (hfrag : inFrag2 false n = true) (hstatic : typed2 cfg [] n = true)
     (h : check cfg n = .ok n' τ) (hV : vtyOf τ = some V) (ctx : Spec.Ctx) (s : Spec.SState) :
     match (Spec.eval c ctx n' s).1 with
     | .ok v => ValOfV v V
@@ -472,32 +478,53 @@ theorem check_sound_collections_partial (cfg : CheckCfg) (c : Spec.SCfg) (henv :
   have hs := accepted_type_is_synth cfg n n' τ h
   obtain ⟨hn', _, _, _⟩ := (check_ok_iff cfg n n' τ).1 h
   obtain ⟨_, _, hev⟩ := frag2_sound (E := ValueDep) (Or.inl rfl) (Or.inr (Or.inl rfl)) (Or.inr (Or.inr rfl))
-    cfg c henv n [] hfrag hstatic τ V hs hV {} rfl
+    cfg c henv false (fun h => by cases h) n [] hfrag hstatic τ V hs hV {} rfl
   rw [hn'] at hev
   exact hev ctx trivial s
 
-/-- … and for whole programs (`Spec.run`: evaluate, then the conversion the compiler appends for
-`AsInt64` / `AsFloat64`): under `AsBool` the result is exactly a `bool`, under `AsInt64` exactly an
-`int64`, under `AsFloat64` exactly a `float64`, or the run fails with a value-dependent error (`τ` scalar: not an
-`interface{}`-typed result, which the directives also admit). -/
-theorem as_kind_exact_collections_partial (cfg : CheckCfg) (c : Spec.SCfg) (henv : EnvConforms2 cfg c.env)
-    (n n' : Node) (τ : OTy) (hfrag : inFrag2 n = true) (hstatic : typed2 cfg [] n = true)
-    (h : check cfg n = .ok n' τ) (hτs : ScalarT τ) :
+/-- **Soundness with calls of environment functions**, behind the hypothesis on the world
+(`WorldConforms`): a function of the environment, called with arguments of its parameter types, returns
+a value of its declared result type or fails with a tolerated class — here the value-dependent ones and
+`ErrClass.call`, a panic inside the function.  Arguments (`argOK`): an expression whose type is the
+parameter's value type and which the checker does not retype, or a tree of integer literals retyped to a
+numeric parameter (`Ff(1)`, `Ff(-(1 + 2))`); the retyped non-literal arguments of the known finding
+(`Ff(+I)`, `Fi(F64 + 1)`) are excluded by this predicate. -/
+theorem check_sound_calls_partial (cfg : CheckCfg) (c : Spec.SCfg) (henv : EnvConforms2 cfg c.env)
+    (hworld : WorldConforms (fun e => ValueDep e ∨ e = .call) cfg c)
+    (n n' : Node) (τ : OTy) (V : VTy) (hfrag : inFrag2 true n = true) (hstatic : typed2 cfg [] n = true)
+    (h : check cfg n = .ok n' τ) (hV : vtyOf τ = some V) (ctx : Spec.Ctx) (s : Spec.SState) :
+    match (Spec.eval c ctx n' s).1 with
+    | .ok v => ValOfV v V
+    | .error e => ValueDep e ∨ e = .call := by
+  have hs := accepted_type_is_synth cfg n n' τ h
+  obtain ⟨hn', _, _, _⟩ := (check_ok_iff cfg n n' τ).1 h
+  obtain ⟨_, _, hev⟩ := frag2_sound (E := fun e => ValueDep e ∨ e = .call) (Or.inl (Or.inl rfl))
+    (Or.inl (Or.inr (Or.inl rfl))) (Or.inl (Or.inr (Or.inr rfl)))
+    cfg c henv true (fun _ => hworld) n [] hfrag hstatic τ V hs hV {} rfl
+  rw [hn'] at hev
+  exact hev ctx trivial s
+
+/-- from "the evaluation yields a value of the accepted scalar type" to the result directives for whole
+programs (`Spec.run`: evaluate, then the conversion the compiler appends for `AsInt64` / `AsFloat64`) -/
+private theorem as_kind_of_eval (E : ErrClass → Prop) (cfg : CheckCfg) (c : Spec.SCfg) (n n' : Node) (τ : OTy)
+    (h : check cfg n = .ok n' τ) (hτs : ScalarT τ)
+    (hev0 : match (Spec.eval c [] n' {}).1 with
+      | .ok v => ValOfK v τ.kind
+      | .error e => E e) :
     (cfg.expect = .bool → match (Spec.run c none n').1 with
-      | .ok v => ∃ b, v = .bool b | .error e => ValueDep e) ∧
+      | .ok v => ∃ b, v = .bool b | .error e => E e) ∧
     (cfg.expect = .int64 → match (Spec.run c (some 0) n').1 with
-      | .ok v => ∃ x, v = .int .int64 x | .error e => ValueDep e) ∧
+      | .ok v => ∃ x, v = .int .int64 x | .error e => E e) ∧
     (cfg.expect = .float64 → match (Spec.run c (some 1) n').1 with
-      | .ok v => ∃ x, v = .f64 x | .error e => ValueDep e) := by
+      | .ok v => ∃ x, v = .f64 x | .error e => E e) := by
   have hk := as_kind_exact cfg n n' τ h
   have key : ∀ k, τ.kind = k →
       match (Spec.eval c [] n' {}).1 with
       | .ok v => ValOfK v k
-      | .error e => ValueDep e := by
+      | .error e => E e := by
     intro k hkk
-    have := check_sound_collections_partial cfg c henv n n' τ (.sc τ.kind) hfrag hstatic h (vtyOf_scalar hτs) [] {}
-    rw [hkk] at this
-    exact this
+    rw [hkk] at hev0
+    exact hev0
   refine ⟨?_, ?_, ?_⟩
   · intro he
     have hev := key .bool (hk.1 he)
@@ -538,6 +565,36 @@ theorem as_kind_exact_collections_partial (cfg : CheckCfg) (c : Spec.SCfg) (henv
       simp only [castV, toFloat64Val, numOf_kind hv, hx]
       exact ⟨x, rfl⟩
 
+/-- … and for whole programs (`Spec.run`: evaluate, then the conversion the compiler appends for
+`AsInt64` / `AsFloat64`): under `AsBool` the result is exactly a `bool`, under `AsInt64` exactly an
+`int64`, under `AsFloat64` exactly a `float64`, or the run fails with a value-dependent error (`τ` scalar: not an
+`interface{}`-typed result, which the directives also admit). -/
+theorem as_kind_exact_collections_partial (cfg : CheckCfg) (c : Spec.SCfg) (henv : EnvConforms2 cfg c.env)
+    (n n' : Node) (τ : OTy) (hfrag : inFrag2 false n = true) (hstatic : typed2 cfg [] n = true)
+    (h : check cfg n = .ok n' τ) (hτs : ScalarT τ) :
+    (cfg.expect = .bool → match (Spec.run c none n').1 with
+      | .ok v => ∃ b, v = .bool b | .error e => ValueDep e) ∧
+    (cfg.expect = .int64 → match (Spec.run c (some 0) n').1 with
+      | .ok v => ∃ x, v = .int .int64 x | .error e => ValueDep e) ∧
+    (cfg.expect = .float64 → match (Spec.run c (some 1) n').1 with
+      | .ok v => ∃ x, v = .f64 x | .error e => ValueDep e) :=
+  as_kind_of_eval ValueDep cfg c n n' τ h hτs
+    (check_sound_collections_partial cfg c henv n n' τ (.sc τ.kind) hfrag hstatic h (vtyOf_scalar hτs) [] {})
+
+/-- the same with calls of environment functions (hypothesis `WorldConforms`) -/
+theorem as_kind_exact_calls_partial (cfg : CheckCfg) (c : Spec.SCfg) (henv : EnvConforms2 cfg c.env)
+    (hworld : WorldConforms (fun e => ValueDep e ∨ e = .call) cfg c)
+    (n n' : Node) (τ : OTy) (hfrag : inFrag2 true n = true) (hstatic : typed2 cfg [] n = true)
+    (h : check cfg n = .ok n' τ) (hτs : ScalarT τ) :
+    (cfg.expect = .bool → match (Spec.run c none n').1 with
+      | .ok v => ∃ b, v = .bool b | .error e => ValueDep e ∨ e = .call) ∧
+    (cfg.expect = .int64 → match (Spec.run c (some 0) n').1 with
+      | .ok v => ∃ x, v = .int .int64 x | .error e => ValueDep e ∨ e = .call) ∧
+    (cfg.expect = .float64 → match (Spec.run c (some 1) n').1 with
+      | .ok v => ∃ x, v = .f64 x | .error e => ValueDep e ∨ e = .call) :=
+  as_kind_of_eval (fun e => ValueDep e ∨ e = .call) cfg c n n' τ h hτs
+    (check_sound_calls_partial cfg c henv hworld n n' τ (.sc τ.kind) hfrag hstatic h (vtyOf_scalar hτs) [] {})
+
 -- the hypotheses are satisfiable and not vacuous
 example : WellTyped (cfgWith .repaired) (.binary {} "+" (ident "I") (.int {} 2)) ∧
     ¬ WellTyped (cfgWith .repaired) (.binary {} "+" (ident "I") (.str {} "a")) ∧
@@ -552,11 +609,134 @@ def exprColl : Node :=
     (.builtin {} "all" [ident "Ints", .closure {} (.binary {} "in" (.pointer {}) (.binary {} ".." (.int {} 1) (ident "I")))])
     (.binary {} ">" (.builtin {} "len" [ident "Ints"]) (.index {} (ident "Ints") (.int {} 0)))
 
-example : inFrag2 exprColl = true ∧ typed2 (cfgWith .asIs) [] exprColl = true ∧
+/-- `Ff(-(1 + 2))`: integer literals retyped to the float64 parameter -/
+def exprFfLit : Node := .func {} "Ff" [.unary {} "-" (.binary {} "+" (.int {} 1) (.int {} 2))] false
+/-- `Fs(Ints[1:2][0] > I ? "a" : "b")` over `envTy` -/
+def exprFsCond : Node :=
+  .func {} "Fs" [.cond {} (.binary {} ">" (.index {} (.slice {} (ident "Ints") (some (.int {} 1)) (some (.int {} 2))) (.int {} 0))
+    (ident "I")) (.str {} "a") (.str {} "b")] false
+
+/-- `I in [1, 2, I + 1] and len((I > 1 ? Ints : 1..3)[0:1]) == 1` -/
+def exprArr : Node :=
+  .binary {} "and"
+    (.binary {} "in" (ident "I") (.array {} [.int {} 1, .int {} 2, .binary {} "+" (ident "I") (.int {} 1)]))
+    (.binary {} "==" (.builtin {} "len" [.slice {} (.cond {} (.binary {} ">" (ident "I") (.int {} 1)) (ident "Ints")
+      (.binary {} ".." (.int {} 1) (.int {} 3))) (some (.int {} 0)) (some (.int {} 1))]) (.int {} 1))
+
+example : inFrag2 false exprArr = true ∧ typed2 (cfgWith .asIs) [] exprArr = true ∧
+    (check (cfgWith .asIs) exprArr).okType = some boolTy := by
+  decide +kernel
+
+example : inFrag2 false exprColl = true ∧ typed2 (cfgWith .asIs) [] exprColl = true ∧
     (check (cfgWith .asIs) exprColl).okType = some boolTy ∧
+    inFrag2 true exprFfLit = true ∧ typed2 (cfgWith2 .asIs) [] exprFfLit = true ∧
+    (check (cfgWith2 .asIs) exprFfLit).okType = some (some (.num .float64)) ∧
+    inFrag2 true exprFsCond = true ∧ typed2 (cfgWith .asIs) [] exprFsCond = true ∧
+    (check (cfgWith .asIs) exprFsCond).okType = some (some .string) ∧
     -- the excluded constructs are outside the predicates
-    inFrag2 exprFilter = false ∧ inFrag2 exprFs1 = false ∧
+    -- `filter`: in the fragment under the documented rule (`[]interface{}`), not under the code's (`[]T`)
+    typed2 (cfgWith .asIs) [] exprFilter = false ∧ typed2 (cfgWith .repaired) [] exprFilter = true ∧
+    inFrag2 false exprFilter = true ∧ typed2 (cfgWith .asIs) [] exprFs1 = false ∧
+    typed2 (cfgWith2 .asIs) [] exprFfPlusI = false ∧
     typed2 (cfgWith3 .asIs) [] exprAnyTimes1 = false ∧ typed2 (cfgWith .asIs) [] exprIntsA = false := by
   decide +kernel
+
+def sampleWorld : World := { call := fun _ _ => .ok (.f64 0), regexMatch := fun _ _ => none, pow := fun _ _ => 0 }
+def sampleSCfg : Spec.SCfg :=
+  { world := sampleWorld, env := .struct "main.E2" false [("Ff", .fn "Ff"), ("I", .int .int 1)], budget := 1000 }
+
+def sampleTable : Table := [("I", { ty := some tInt }), ("Ff", { ty := some (.func [.num .float64] false [.num .float64]) })]
+
+private theorem sample_types : (cfgWith2 .asIs).types = some sampleTable := by decide +kernel
+
+private theorem sample_get (name : String) :
+    sampleTable.get? name = if name = "I" then some { ty := some tInt }
+      else if name = "Ff" then some { ty := some (.func [.num .float64] false [.num .float64]) } else none := by
+  simp only [sampleTable, Table.get?]
+  by_cases h1 : name = "I"
+  · subst h1; rfl
+  · by_cases h2 : name = "Ff"
+    · subst h2; rfl
+    · have h1' : ¬ "I" = name := fun h => h1 h.symm
+      have h2' : ¬ "Ff" = name := fun h => h2 h.symm
+      simp [h1, h2, h1', h2']
+
+private theorem sample_env : EnvConforms2 (cfgWith2 .asIs) sampleSCfg.env := by
+  intro name ns τ V hr hV
+  unfold identRule at hr
+  rw [sample_types] at hr
+  simp only [sample_get] at hr
+  by_cases h1 : name = "I"
+  · subst h1
+    simp (config := {decide := true}) only [if_true, if_false] at hr
+    cases hr
+    have : V = .sc (.num .int) := by
+      have : vtyOf (some tInt) = some (.sc (.num .int)) := by decide
+      rw [this] at hV; cases hV; rfl
+    subst this
+    exact ⟨.int .int 1, rfl, 1, rfl⟩
+  · by_cases h2 : name = "Ff"
+    · subst h2
+      simp (config := {decide := true}) only [if_true, if_false] at hr
+      cases hr
+      have : vtyOf (some (.func [.num .float64] false [.num .float64])) = none := by decide
+      rw [this] at hV; cases hV
+    · simp only [h1, h2, if_false] at hr
+      simp (config := {decide := true}) only [cfgWith2, if_false] at hr
+      cases ns <;> simp at hr
+      cases hr
+      have : vtyOf none = none := by decide
+      rw [this] at hV; cases hV
+
+private theorem sample_world (E : ErrClass → Prop) : WorldConforms E (cfgWith2 .asIs) sampleSCfg := by
+  intro name fn im ins variadic numIn offset out vs V hft hfp hconf hV
+  unfold funcTargetC at hft
+  rw [sample_types] at hft
+  simp only [Option.bind, sample_get] at hft
+  by_cases h1 : name = "I"
+  · subst h1
+    simp (config := {decide := true}) only [if_true] at hft
+    have : isFuncType (some tInt) = none := by decide
+    simp [this] at hft
+  · by_cases h2 : name = "Ff"
+    · subst h2
+      simp (config := {decide := true}) only [if_true, if_false] at hft
+      have : isFuncType (some (.func [.num .float64] false [.num .float64])) = some (.func [.num .float64] false [.num .float64]) := by
+        decide +kernel
+      simp only [this, Option.map, Option.some.injEq, Prod.mk.injEq] at hft
+      obtain ⟨rfl, rfl⟩ := hft
+      -- the result type is float64, the call returns a float64
+      have hout : out = .num .float64 := by
+        unfold funcPlan at hfp
+        simp (config := {decide := true}) [Ty.funcParts, Ty.core] at hfp
+        split at hfp <;> (try split at hfp) <;> (try split at hfp) <;> simp at hfp
+        exact hfp.2.2.2.2.symm
+      subst hout
+      have : V = .sc (.num .float64) := by
+        have : vtyOf (some (.num .float64)) = some (.sc (.num .float64)) := by decide
+        rw [this] at hV; cases hV; rfl
+      subst this
+      exact ⟨0, rfl⟩
+    · simp [h1, h2] at hft
+
+/-- the hypotheses of the soundness theorems are satisfiable — an environment value and a world for
+`envTy2` (`I int`, `Ff func(float64) float64`) — and the theorem applies: `Ff(-(1 + 2))`, accepted with
+type float64, evaluates to a float64 or fails with a tolerated class. -/
+theorem sound_hypotheses_witness :
+    EnvConforms2 (cfgWith2 .asIs) sampleSCfg.env ∧
+    WorldConforms (fun e => ValueDep e ∨ e = .call) (cfgWith2 .asIs) sampleSCfg ∧
+    ∀ n' τ, check (cfgWith2 .asIs) exprFfLit = .ok n' τ → ∀ ctx s,
+      match (Spec.eval sampleSCfg ctx n' s).1 with
+      | .ok v => ∃ x, v = .f64 x
+      | .error e => ValueDep e ∨ e = .call := by
+  refine ⟨sample_env, sample_world _, ?_⟩
+  intro n' τ h ctx s
+  have hτ : τ = some (.num .float64) := by
+    have : (check (cfgWith2 .asIs) exprFfLit).okType = some (some (.num .float64)) := by decide +kernel
+    rw [h] at this
+    simpa [CheckResult.okType] using this
+  subst hτ
+  exact check_sound_calls_partial (cfgWith2 .asIs) sampleSCfg sample_env (sample_world _) exprFfLit n' _
+    (.sc (.num .float64)) (by decide +kernel) (by decide +kernel) h (by decide) ctx s
 
 end ExprModel.C03
